@@ -9,7 +9,6 @@ import (
 	"math/rand"
 	"os"
 	"runtime"
-	"runtime/debug"
 	"strconv"
 	"sync"
 	"sync/atomic"
@@ -100,21 +99,13 @@ const PoolEpoch = 16
 var Fresh = true
 
 // FreshPools empties every sync.Pool of the process.
-func FreshPools() {
-	debug.SetGCPercent(-1)
-	// Safety net only: an execution that allocates without bound (a changed
-	// tree spinning in a loop) makes the collector run again near this limit
-	// instead of taking the machine down before the hang monitor fires.
-	debug.SetMemoryLimit(3 << 30)
-	runtime.GC()
-	runtime.GC()
-}
+func FreshPools() { eng.FreshPools() }
 
 // Exec runs one property run on the given tape.
 func Exec(spec *props.Spec, t *sim.Tape, tier string, detail bool) *eng.Result {
 	r := eng.NewRun(spec.ID, t, tier, detail)
 	if Fresh && spec.Engine != "multi" { // engine multi does the same before each of its executions
-		FreshPools()
+		eng.Collect()
 	}
 	r.Guard(func() {
 		// Globals every run depends on, all derived from the tape.
